@@ -916,6 +916,8 @@ def shim_shape(name, head, body, macros):
                 "if(so_error){errno=so_error;return -1;}", "return 0;"]
         if rest != want or ss[1][0] != "if" or ss[1][3] is not None:
             reject("%s: completion sequence after the wait not recognised: %s" % (name, " ".join(rest)))
+        if err != "EINPROGRESS":
+            reject("%s: SO_ERROR completion after a wait for %s" % (name, err))
         info.update(shape="SingleWait", dontwait=dw, retry_errno=err)
         return info
     return None   # not a waiting shim: handled by the caller
